@@ -238,7 +238,16 @@ def any_desc(al, cfg):
     return shapes.any_desc(al, cfg, None, "v")
 
 
-EXTRA_PAYLOADS = ["payload", None, 7, True, ["a", 1], {"k": [1, None]}]  # JSON kinds of the undeclared property's value
+def _deep(n, as_obj):
+    v = 0
+    for _ in range(n):
+        v = {"k": v} if as_obj else [v]
+    return v
+
+
+# JSON kinds of the undeclared property's value; the last two are 150 arrays / objects nested in each other (an
+# implementation that walks or measures the raw message meets them although nothing declared is nested that deep)
+EXTRA_PAYLOADS = ["payload", None, 7, True, ["a", 1], {"k": [1, None]}, _deep(150, False), _deep(150, True)]
 
 
 def build(cfg=None, with_extra=False):
